@@ -7,6 +7,7 @@ import json
 import re
 
 from lib import common as C
+from lib import pgtie
 from lib import queuefam
 
 
@@ -121,7 +122,16 @@ def cross_compare(ctx, info, rng, fam, hs):
             "cross_backend_steps": steps}
 
 
+def extra(ctx, info, rng, fam, hs):
+    """memory vs SQLite directly (executed), Postgres vs SQLite statically (lib/pgtie.py, Properties/C13pg.v)"""
+    cov = cross_compare(ctx, info, rng, fam, hs)
+    cov.update(pgtie.run(ctx, info, rng, fam, hs))
+    return cov
+
+
 def main(ctx, replay):
-    return queuefam.run_property(ctx, "C13", 150, 3000, extra=cross_compare,
+    return queuefam.run_property(ctx, "C13", 150, 3000, extra=extra, extra_prop_files=("C13pg",),
                                  assumptions=["C13 histories keep clock steps at 0 or >= the SQLite sweep interval and avoid the memory-only admission rules "
-                                              "(memory pressure, delivered-retention depth term); those regimes are covered by C05/C12 per backend"])
+                                              "(memory pressure, delivered-retention depth term); those regimes are covered by C05/C12 per backend",
+                                              "the Postgres store is tied to the SQLite store only statically (C13pg: equal statement skeletons modulo the reviewed "
+                                              "table Model/PgAllowedDiffs.v); the semantics of the Postgres engine, of pgx and of the listed differences are trusted"])
